@@ -84,6 +84,62 @@ def implicit_dd_family(ctx, rng, n, cap):
     return items
 
 
+SPECIAL_NAMES = ["with space", "til~de", "quo'te", "amp&er", "par(en)", "eq=ual", "at@sign", "bang!", "com,ma", "per%cent",
+                 "two  spaces", "br{ace}", "sq[uare]", "plain", "qu?est", "dq\"uote"]
+
+
+def derived_paths_family(ctx, rng, n, cap):
+    """Path-valued bindings written on the rule in terms of $out ("depfile = deps/$out.d", "rspfile = $out.rsp") for outputs whose
+    names need shell quoting: inside a command line $out is quoted, as the value of depfile / rspfile it is the plain path - the
+    directory that has to exist when the command starts is the depfile's real directory, the response file is written to the real
+    path with quoted names inside.  Names avoid the bytes the depfile reader is known to cut (C15 findings)."""
+    import copy
+    from ..simlib import St, eval_path_expr
+    items = []
+    for k in range(n):
+        ncomp = rng.randint(1, 3)
+        names = rng.sample(SPECIAL_NAMES, ncomp)
+        srcs = {"h.h": "// h\n"}
+        stmts = []
+        for i, nm in enumerate(names):
+            src = "c%d.c" % i if rng.random() < 0.6 else "src %d/%s.c" % (i, nm)
+            srcs[src] = ("#include h.h\n" if rng.random() < 0.6 else "") + "// source %d\n" % i
+            d = rng.choice(("obj%d/" % i, "o/", "obj%d/deep/" % i))
+            st = St("s%d" % i, [d + nm + ".o"], ins=[src])
+            if rng.random() < 0.3:
+                st["iouts"] = [d + nm + ".lst"]
+            deps = rng.choice(("gcc", "depfile", "gcc", "none"))
+            if deps != "none":
+                st["deps"] = deps
+                st["depfile_expr"] = rng.choice(("$out.d", "deps/$out.d", "dd%d/x/$out.d" % i, "deps/$out.d"))
+                st["depfile"] = eval_path_expr(st["depfile_expr"], st, False)
+            if rng.random() < 0.4:
+                st["rsp_expr"] = "$out.rsp"
+                st["rsp"] = eval_path_expr(st["rsp_expr"], st, False)
+                st["rsp_content"] = rng.choice(("$in", "$in_newline", "-o $out $in"))
+            if rng.random() < 0.3:
+                st["early"] = True
+            stmts.append(st)
+        link = St("link", ["bin/pro g" if rng.random() < 0.5 else "prog"], ins=[s_["outs"][0] for s_ in stmts])
+        if rng.random() < 0.5:
+            link["rsp_expr"] = "$out.rsp"
+            link["rsp"] = eval_path_expr(link["rsp_expr"], link, False)
+            link["rsp_content"] = rng.choice(("$in", "$in_newline"))
+        stmts.append(link)
+        sc = {"id": "C04-%d-dp-%d" % (ctx.seed, k), "sources": srcs, "stmts": stmts, "pools": {}, "defaults": []}
+        steps, scs = [], []
+        if rng.random() < 0.4:
+            steps.append({"op": "build", "targets": [], "j": 2, "k": 1, "sched": {"mode": "prng", "seed": 1}})
+            scs.append(copy.deepcopy(sc))
+            for p_ in rng.sample(sorted(srcs), rng.randint(1, len(srcs))):
+                steps.append({"op": "touch", "path": p_})
+                scs.append(copy.deepcopy(sc))
+        steps.append({"op": "build", "targets": [], "j": rng.choice((1, 2, 3)), "k": 1, "sched": {"mode": "all", "cap": cap, "keep_world": True}})
+        scs.append(copy.deepcopy(sc))
+        items.append((simlib.scenario_json(sc, steps), {"scs": scs, "explore_step": len(steps) - 1}))
+    return items
+
+
 def run(ctx):
     quick = ctx.tier == "quick"
     rng = random.Random(ctx.seed * 31337 + 4)
@@ -102,6 +158,7 @@ def run(ctx):
     items += sched.small_scenarios(ctx, "C04", 700 if quick else 5000, rng, size=(3, 7), cap=120 if quick else 300, salt=3, faults=True,
                                    feat=dict(order_only=0.5, deps=0.5, phony=0.2, restat=0.2, chain=0.6))
     items += implicit_dd_family(ctx, rng, 250 if quick else 2500, 80 if quick else 200)
+    items += derived_paths_family(ctx, rng, 250 if quick else 2500, 40 if quick else 100)
     sched.run_explore(ctx, "C04", items)
     # "its response file holds the declared content" on the real disk: a longer file may already be at that path (kept after a
     # failed command, kept by -d keeprsp, stale), the declared content may be empty
